@@ -100,6 +100,43 @@ func init() {
 					exitBlock = exit
 				}
 			})
+			// the loop written as `for range limit` / `for i := 0; i < limit; i++`: the compiler tests the bound once before
+			// the first round (a comparison of constants) and then in the latch, on the *next* value of the counter —
+			// that latch test does not dominate the body, but every further round passes it
+			if rotated := guard == nil || func() bool { ok, _ := counterGrows(p, counter, h); return !ok }(); rotated {
+				lb := loopBlocks(h)
+				for _, pr := range h.Preds {
+					if !h.Dominates(pr) || len(pr.Instrs) == 0 {
+						continue // not a back edge
+					}
+					ifi, ok := pr.Instrs[len(pr.Instrs)-1].(*ssa.If)
+					if !ok {
+						continue
+					}
+					b, ok := ifi.Cond.(*ssa.BinOp)
+					if !ok || !isLimit(b.Y) || (b.Op != token.LSS && b.Op != token.LEQ) || pr.Succs[0] != h {
+						continue
+					}
+					exit := pr.Succs[1]
+					// the way out of the loop reports the error (possibly after a jump)
+					for len(exit.Instrs) == 1 && len(exit.Succs) == 1 && !lb[exit] {
+						exit = exit.Succs[0]
+					}
+					if lb[exit] || !blockReturnsNonNilError(exit) {
+						continue
+					}
+					// this latch is the only way back into the loop
+					only := true
+					for _, q := range h.Preds {
+						if h.Dominates(q) && q != pr {
+							only = false
+						}
+					}
+					if only {
+						guard, counter, exitBlock = ifi, b.X, exit
+					}
+				}
+			}
 			c.check(guard != nil, "layout: depth guard", p.instrPos(render), "counter >= const → error dominates the render call", "no guard `counter >= constant → return error` dominates the render call: a cyclic layout chain never ends")
 			if guard == nil {
 				return
@@ -279,7 +316,7 @@ func init() {
 		Doc: "resolution order and anchor: resolveLayoutPath returns the layouts/ fallback only after a failed Stat on a path built from the current file's directory; in the chain loop the `current file` handed to it is the loop-carried file of the link that named the layout, never the originally loaded page",
 		Run: func(p *Prog, c *Ctx) {
 			fn := p.MustFn("(*vuego.template).resolveLayoutPath")
-			cur := fn.Params[2]
+			cur := paramOf(fn, "currentFile", 2, 3)
 			stats := 0
 			for _, site := range callsIn(fn) {
 				if calleeName(site.Common()) == "(*vuego.Loader).Stat" {
@@ -640,7 +677,7 @@ func init() {
 	})
 
 	register(&Rule{
-		ID: "C08.R3", Props: []string{"C08", "C09"}, Min: 3,
+		ID: "C08.R3", Props: []string{"C08", "C09", "C10"}, Min: 3,
 		Doc: "children never write to the parent: New/new/Load build the child's stack from Copy() (or a fresh stack), never from the parent's own stack field, and store nothing into the receiver; Fill installs a map made in the call as the root scope, never the caller's map",
 		Run: func(p *Prog, c *Ctx) {
 			for _, name := range []string{"(*vuego.template).new", "(*vuego.template).Load", "(*vuego.template).New"} {
@@ -814,6 +851,19 @@ func isBoolCellOrPhi(v ssa.Value) bool {
 // constant, and every assignment inside the loop adds a positive constant.
 func counterGrows(p *Prog, v ssa.Value, h *ssa.BasicBlock) (bool, string) {
 	loop := loopBlocks(h)
+	// the guard of a range-over-int (or otherwise rotated) loop tests the *next* value: counter+const, where counter
+	// is the φ — which that very value is fed back into
+	if b, ok := v.(*ssa.BinOp); ok && b.Op == token.ADD {
+		if ph, isPhi := b.X.(*ssa.Phi); isPhi {
+			if k, isK := constInt(b.Y); isK && k > 0 {
+				for _, e := range ph.Edges {
+					if e == ssa.Value(b) {
+						return counterGrows(p, ph, h)
+					}
+				}
+			}
+		}
+	}
 	switch x := v.(type) {
 	case *ssa.Phi:
 		inc := false
